@@ -87,6 +87,7 @@ type Policy struct {
 	StallProb  float64 `json:"stall_prob,omitempty"` // per-yield probability to stall inside StallSites
 	StallAny   float64 `json:"stall_any,omitempty"`  // per-yield probability to stall anywhere
 	MaxYields  int     `json:"max_yields,omitempty"`
+	MaxStalls  int     `json:"max_stalls,omitempty"` // stall faults per run (default 2)
 	Forced     []Switch `json:"forced,omitempty"`
 	// SerialOrder: for mode "serial": task ids in the order they run to completion.
 	SerialOrder []int `json:"serial_order,omitempty"`
@@ -306,14 +307,21 @@ func (s *Sim) setCur(t *Task) { s.cur = t }
 
 //go:norace
 func (s *Sim) firstTask() *Task {
+	t := s.chooseFirst()
+	s.recordSwitch(-1, 0, t.ID)
+	return t
+}
+
+//go:norace
+func (s *Sim) chooseFirst() *Task {
 	switch s.pol.Mode {
 	case "serial":
-		if len(s.pol.SerialOrder) > 0 {
+		if len(s.pol.SerialOrder) > 0 && s.pol.SerialOrder[0] < len(s.tasks) {
 			return s.tasks[s.pol.SerialOrder[0]]
 		}
 		return s.tasks[0]
 	case "forced":
-		if to, ok := s.forced[[2]int{-1, 0}]; ok && to < len(s.tasks) {
+		if to, ok := s.forced[[2]int{-1, 0}]; ok && to >= 0 && to < len(s.tasks) {
 			return s.tasks[to]
 		}
 		return s.tasks[0]
@@ -324,12 +332,9 @@ func (s *Sim) firstTask() *Task {
 				best = t
 			}
 		}
-		s.recordSwitch(-1, 0, best.ID)
 		return best
 	}
-	t := s.tasks[s.rng.Intn(len(s.tasks))]
-	s.recordSwitch(-1, 0, t.ID)
-	return t
+	return s.tasks[s.rng.Intn(len(s.tasks))]
 }
 
 //go:norace
@@ -565,7 +570,7 @@ func (s *Sim) step(t *Task, site string, kind uint8, blockedNow bool) {
 		}
 	}
 	// stall fault: park this task until the others have completed work
-	if (s.pol.Mode == "random" || s.pol.Mode == "pct") && !blockedNow && !t.stalled {
+	if (s.pol.Mode == "random" || s.pol.Mode == "pct") && !blockedNow && !t.stalled && s.Stats.Stalls < s.maxStalls() {
 		p := s.pol.StallAny
 		if inBuild {
 			p += s.pol.StallProb
@@ -607,6 +612,14 @@ func (s *Sim) step(t *Task, site string, kind uint8, blockedNow bool) {
 	s.cur = next
 	rawWrite(next.wfd)
 	rawRead(t.rfd)
+}
+
+//go:norace
+func (s *Sim) maxStalls() int {
+	if s.pol.MaxStalls > 0 {
+		return s.pol.MaxStalls
+	}
+	return 2
 }
 
 //go:norace
